@@ -71,6 +71,9 @@ func opts(g *core.G) core.TreeOpts {
 	if g.Chance(0.08) {
 		o.Lengths = 0 // no length anywhere
 	}
+	if g.Chance(0.06) {
+		o.LenDenom = 10 // decimal lengths (0.1, 0.7 …): float64 sums round, the oracle allows one rounding per addition
+	}
 	return o
 }
 
